@@ -704,7 +704,7 @@ def corr_lines(obs):
         out.append(("insert", impl, "defaults insert %s %s" % (kinds, ps)))
     if obs["info"].get("pkplan") and obs["exc"] is None:
         kindname = {"autoinc": "autoinc", "autoinc_supplied": "autoinc", "callable": "pydefault", "sqlexpr": "sqlexpr", "supplied": "plain"}[case["pk"]]
-        sup = "1" if case["pk"] in ("supplied", "autoinc_supplied") else "0"
+        sup = ("2" if form == "insert1v" else "1") if case["pk"] in ("supplied", "autoinc_supplied") else "0"
         out.append(("pk-plan", "ok " + obs["info"]["pkplan"], "defaults pk %s %s %s" % (kindname, sup, obs["info"]["pkctx"])))
     d = disp_of_sql(obs)
     if d is not None and obs["exc"] is None:
